@@ -659,6 +659,8 @@ def main(argv):
                             # no blank between the keyword and what follows it
                             "#if(defined(X))", "#if!defined(X)", "#elif(A)", "#include\"f.h\"", "#ifdef X", "#  if defined(Y)", "#define F(a,b) a+b",
                             # followed by a blank line; the last line of the macro ending in a backslash (which joins only that blank line)
+                            # forms that a coverage run of C99Preprocessor.py showed the quick tier never printed
+                            "#line 7 \"a.f90\"", "# 12 \"x.f90\" 2", "#error", "#warning", "#define FLAG", "#", "#define EMPTY()", "#define TWOARGS(a, b)", "#undef FLAG",
                             "#define G 1\n", "#define CHECK(a) call check(a) \\\n", "#define TWO(a) a + \\\n   a\n"]
                 for d in directives[:: (1 if tier == "thorough" else 3)] + ([directives[-1]] if tier != "thorough" else []) + (trailing if tier == "thorough" or pos % 3 == 1 else []):
                     src = "\n".join(lines[:pos] + [d] + lines[pos:]) + "\n"
